@@ -209,3 +209,25 @@ def oracle(c, r):
                 yield ("iter-index", "iter() station %d has (index, fraction) = (%r, %r)" % (j, s["index"], s["fraction"]))
             if abs(s["length_along"] - lens[j]) > 1e-9 * scale:
                 yield ("iter-length", "iter() station %d has length_along %r, stored %r" % (j, s["length_along"], lens[j]))
+            # direction at a vertex: the normalised sum of the two adjacent unit edge directions (the first and the closing
+            # edge at the seam of a closed curve), the edge direction at the free ends of an open one
+            n = len(pts)
+            def ed(a):
+                e = sub(pts[a + 1], pts[a])
+                m = norm(e)
+                return [x / m for x in e] if m > 0 else None
+            if r["closed"] and j in (0, n - 1):
+                pair = (ed(0), ed(n - 2))
+            elif j == 0:
+                pair = (ed(0), ed(0))
+            elif j == n - 1:
+                pair = (ed(n - 2), ed(n - 2))
+            else:
+                pair = (ed(j - 1), ed(j))
+            if pair[0] is not None and pair[1] is not None:
+                sm = [a + b for a, b in zip(*pair)]
+                m = norm(sm)
+                d = s["dir"]
+                if m > 1e-6 and not any(math.isnan(x) for x in d) and norm(sub([x / m for x in sm], d)) > 1e-7:
+                    yield ("vertex-dir", "station at vertex %d of a %s curve of %d vertices has direction %r; the normalised sum of the adjacent edge directions is %r" % (
+                        j, "closed" if r["closed"] else "open", n, d, [x / m for x in sm]))
